@@ -18,7 +18,10 @@ func genRun(g *hx.Gen, fam int) string {
 	f := map[string]string{
 		"pol": "NONS", "hk": "0", "ln": hx.HexS(ln), "tid": hx.HexS(g.Pick([]string{"ab12cd34ef", "", `q"uote`, "日本"})), "ip": hx.HexS(g.Pick([]string{"10.0.0.1", "::1", "<ip>"})),
 		"ru": hx.HexS(g.Str()), "rh": hx.HexS(g.Str()), "algo": "0", "val": "43200", "kids": "0:" + hx.HexS("id-default") + "+1:" + hx.HexS("id-rsa") + "+ecdsa:" + hx.HexS("id-ec"),
-		"pub": "key:L1", "bare": "abs", "hs": "reg", "ag": "honest", "failat": "-", "closeat": "-", "ca": "certs:1:1",
+		"pub": "key:L1", "bare": "abs", "hs": "reg", "ag": "honest", "failat": "-", "closeat": "-", "ca": "certs:1:1", "cl": "-",
+	}
+	if g.Intn(3) == 0 {
+		f["cl"] = g.Pick([]string{"ff", "t2s", "sudo", "ff+sudo", "ver+user", "exts", "sig", "ff+t2s+sudo+ver+user+exts+sig"})
 	}
 	// validity: log-uniform over one second .. ten years, plus the ends
 	vals := []int{1, 2, 60, 3600, 43200, 86400, 31557600, 315576000, 315576000 - 1, 4294963696, 4294967295 - 3600}
@@ -85,7 +88,7 @@ func genRun(g *hx.Gen, fam int) string {
 		}
 	}
 	var parts []string
-	for _, k := range []string{"pol", "hk", "ln", "tid", "ip", "ru", "rh", "algo", "val", "kids", "pub", "bare", "hs", "ag", "failat", "closeat", "ca"} {
+	for _, k := range []string{"pol", "hk", "ln", "tid", "ip", "ru", "rh", "algo", "val", "kids", "pub", "bare", "hs", "ag", "failat", "closeat", "ca", "cl"} {
 		parts = append(parts, k+"="+f[k])
 	}
 	return strings.Join(parts, ",")
@@ -96,13 +99,13 @@ func runWith(over ...string) string {
 	f := map[string]string{
 		"pol": "NONS", "hk": "0", "ln": hx.HexS("alice"), "tid": hx.HexS("ab12cd34ef"), "ip": hx.HexS("10.0.0.1"),
 		"ru": hx.HexS("alice"), "rh": hx.HexS("host"), "algo": "0", "val": "43200", "kids": "0:" + hx.HexS("id-default") + "+1:" + hx.HexS("id-rsa") + "+ecdsa:" + hx.HexS("id-ec"),
-		"pub": "key:L1", "bare": "abs", "hs": "reg", "ag": "honest", "failat": "-", "closeat": "-", "ca": "certs:1:1",
+		"pub": "key:L1", "bare": "abs", "hs": "reg", "ag": "honest", "failat": "-", "closeat": "-", "ca": "certs:1:1", "cl": "-",
 	}
 	for i := 0; i+1 < len(over); i += 2 {
 		f[over[i]] = over[i+1]
 	}
 	var parts []string
-	for _, k := range []string{"pol", "hk", "ln", "tid", "ip", "ru", "rh", "algo", "val", "kids", "pub", "bare", "hs", "ag", "failat", "closeat", "ca"} {
+	for _, k := range []string{"pol", "hk", "ln", "tid", "ip", "ru", "rh", "algo", "val", "kids", "pub", "bare", "hs", "ag", "failat", "closeat", "ca", "cl"} {
 		parts = append(parts, k+"="+f[k])
 	}
 	return strings.Join(parts, ",")
@@ -121,6 +124,10 @@ func exhaustiveGS(depth int, wide bool) [][]string {
 		if wide {
 			alphabet = append(alphabet, runWith("closeat", strconv.Itoa(k), "ca", "certs:2:2"))
 		}
+	}
+	// client claims of every kind
+	for _, c := range []string{"ff", "t2s", "sudo", "ver+user", "exts", "sig", "ff+t2s+sudo+ver+user+exts+sig"} {
+		alphabet = append(alphabet, runWith("cl", c))
 	}
 	// a login name without registered key next to other users' keys
 	for _, n := range []string{"alic", "al*", "?lice", "[a-z]lice", "*", "Alice"} {
